@@ -10,6 +10,8 @@ Case lines (`op len args…`; the second token is only a histogram key):
 * `nx1n|nx1 n limbs d` · `nx2n|nx2 n limbs d`     → `limbs' r`
 * `nxm n num ds` · `div n num ds`                 → `num' ds'` | `panic`
 * `nxmn n num ds`                                 → `num'` | `panic`
+* `r_recip 1 d`, `r_d2x1 1 u d`: the reference kernels `reciprocal_ref` / `div_2x1_ref`; model column = their GENERATED
+  definitions (`Props/C14.gen_reciprocal_ref_spec`, `gen_div_2x1_ref_spec`)
 * `g_recip`, `g_recip2`, `g_d2x1`, `g_d3x2`: same inputs; the model column is the definition GENERATED from the
   Rust source by tools/rs2lean.py (`Ruint.Gen.reciprocal_mg10` …), which validates the translator and its prelude.
 -/
@@ -32,6 +34,7 @@ def handle (args : List String) (_impl : String) : String × String :=
     | "recip2" => (toHex (reciprocal2 d), toHex ((2 ^ 192 - 1) / d - 2 ^ 64))
     | "g_recip" => (toHex (Ruint.Gen.reciprocal_mg10 d), toHex ((2 ^ 128 - 1) / d - 2 ^ 64))
     | "g_recip2" => (toHex (Ruint.Gen.reciprocal_2_mg10 d), toHex ((2 ^ 192 - 1) / d - 2 ^ 64))
+    | "r_recip" => (toHex (Ruint.Gen.reciprocal_ref d), toHex ((2 ^ 128 - 1) / d - 2 ^ 64))
     | _ => ("bad-op", "bad-op")
   | [op, _, a, b] =>
     match op with
@@ -41,6 +44,9 @@ def handle (args : List String) (_impl : String) : String × String :=
     | "g_d2x1" =>
       let u := parseHex a; let d := parseHex b
       (pairStr (Ruint.Gen.div_2x1_mg10 u d (Ruint.Gen.reciprocal_mg10 d)), pairStr (u / d, u % d))
+    | "r_d2x1" =>
+      let u := parseHex a; let d := parseHex b
+      (pairStr (Ruint.Gen.div_2x1_ref u d), pairStr (u / d, u % d))
     | "nx1n" | "nx1" | "nx2n" | "nx2" =>
       let l := parseLimbs a; let d := parseHex b
       let n := Ruint.val l
